@@ -125,7 +125,7 @@ func (h *harness) run() {
 
 	// ---- flavours
 	opt := "-O2"
-	cc := "clang" // quick: clang compiles the snapshot twice as fast as gcc; thorough adds gcc builds
+	cc := "clang"                            // quick: clang compiles the snapshot twice as fast as gcc; thorough adds gcc builds
 	nopie := []string{"-fno-pie", "-no-pie"} // fixed addresses: pointer fields comparable across processes
 	h.fl = []*flavour{
 		{name: "default", compiler: cc, flags: append([]string{opt, "-DC09_STRUCTS_INC=\"" + stdInc + "\""}, nopie...)},
@@ -290,7 +290,32 @@ func statusToModel(s string) string {
 	return "err " + s
 }
 
-func (h *harness) objInitOps(pl *pool, lay map[string]*layoutInfo, typ string, opts []int, priors []string, tag string) {
+// rec collects the outcome of one unit of work so that units can run concurrently and
+// still be reported in a deterministic order.
+type rec struct {
+	ops    [][2]string
+	fails  []hlib.Failure
+	counts []string
+}
+
+func (rc *rec) op(op, impl string) { rc.ops = append(rc.ops, [2]string{op, impl}) }
+func (rc *rec) fail(key, desc, rep string) {
+	rc.fails = append(rc.fails, hlib.Failure{Key: key, Desc: desc, Replay: rep})
+}
+func (rc *rec) count(c string) { rc.counts = append(rc.counts, c) }
+func (rc *rec) emit(r *hlib.Run) {
+	for _, o := range rc.ops {
+		r.Op(o[0], o[1])
+	}
+	for _, f := range rc.fails {
+		r.Fail(f.Key, f.Desc, f.Replay)
+	}
+	for _, c := range rc.counts {
+		r.Count(c)
+	}
+}
+
+func (h *harness) objInitOps(rc *rec, pl *pool, lay map[string]*layoutInfo, typ string, opts []int, priors []string, tag string) {
 	r := h.r
 	li := lay[typ]
 	if li == nil {
@@ -314,7 +339,7 @@ func (h *harness) objInitOps(pl *pool, lay map[string]*layoutInfo, typ string, o
 					if p+8 <= len(raw) {
 						v := strings.Join(raw[p:p+8], "")
 						if old, ok := ptrSeen[p]; ok && old != v {
-							r.Fail("objinit:pointer-varies:"+tag, "a pointer field set by initialize differs between runs over different prior memory",
+							rc.fail("objinit:pointer-varies:"+tag, "a pointer field set by initialize differs between runs over different prior memory",
 								fmt.Sprintf("objinit %s %d %s (offset %d: %s vs %s)", typ, o, pr, p, old, v))
 						}
 						ptrSeen[p] = v
@@ -323,15 +348,15 @@ func (h *harness) objInitOps(pl *pool, lay map[string]*layoutInfo, typ string, o
 				var ok bool
 				impl, ok = canonDump(ans, ptrs)
 				if !ok {
-					r.Fail("objinit:null-pointer:"+tag, "a vtable/choosy pointer is null after a successful initialize", fmt.Sprintf("objinit %s %d %s", typ, o, pr))
+					rc.fail("objinit:null-pointer:"+tag, "a vtable/choosy pointer is null after a successful initialize", fmt.Sprintf("objinit %s %d %s", typ, o, pr))
 				}
 				// the property's own oracle: first parts identical whatever the prior memory was
-				h.checkDetermined(typ, o, pr, raw, lay, tag)
+				h.checkDetermined(rc, typ, o, pr, raw, lay, tag)
 			} else {
 				impl = statusToModel(ans)
 			}
-			r.Op(fmt.Sprintf("init %d 0 %d 0 %s %s", o, li.size, pr, desc), impl)
-			r.Count("objinit:opts=" + fmt.Sprint(o))
+			rc.op(fmt.Sprintf("init %d 0 %d 0 %s %s", o, li.size, pr, desc), impl)
+			rc.count("objinit:opts=" + fmt.Sprint(o))
 		}
 	}
 	// argument checks
@@ -343,7 +368,7 @@ func (h *harness) objInitOps(pl *pool, lay map[string]*layoutInfo, typ string, o
 		} else {
 			impl = statusToModel(ans)
 		}
-		r.Op(fmt.Sprintf("init 0 %s %s %s c:ff %s", bad[2], bad[0], bad[1], desc), impl)
+		rc.op(fmt.Sprintf("init 0 %s %s %s c:ff %s", bad[2], bad[0], bad[1], desc), impl)
 	}
 }
 
@@ -351,6 +376,7 @@ func (h *harness) objInitOps(pl *pool, lay map[string]*layoutInfo, typ string, o
 // priors must agree on every byte initialize is supposed to determine.
 var determinedRef = map[string][]string{}
 var determinedPrior = map[string]string{}
+var detMu sync.Mutex
 
 func firstPartRanges(lay map[string]*layoutInfo, typ string, base int, out *[][2]int) {
 	li := lay[typ]
@@ -363,16 +389,21 @@ func firstPartRanges(lay map[string]*layoutInfo, typ string, base int, out *[][2
 	}
 }
 
-func (h *harness) checkDetermined(typ string, opts int, prior string, raw []string, lay map[string]*layoutInfo, tag string) {
+func (h *harness) checkDetermined(rc *rec, typ string, opts int, prior string, raw []string, lay map[string]*layoutInfo, tag string) {
 	if opts&1 != 0 && prior != "z" {
 		// ALREADY_ZEROED over memory that is not zero: the caller broke the contract
 		return
 	}
 	key := fmt.Sprintf("%s/%d", typ, opts&3)
+	detMu.Lock()
 	ref, ok := determinedRef[key]
+	refPrior := determinedPrior[key]
 	if !ok {
 		determinedRef[key] = raw
 		determinedPrior[key] = prior
+	}
+	detMu.Unlock()
+	if !ok {
 		return
 	}
 	var ranges [][2]int
@@ -384,9 +415,9 @@ func (h *harness) checkDetermined(typ string, opts int, prior string, raw []stri
 	for _, rg := range ranges {
 		for i := rg[0]; i < rg[1] && i < len(raw) && i < len(ref); i++ {
 			if raw[i] != ref[i] {
-				h.r.Fail("objinit:prior-dependent:"+tag,
+				rc.fail("objinit:prior-dependent:"+tag,
 					fmt.Sprintf("byte %d of %s after initialize(options=%d) depends on the prior memory (%s over %s, %s over %s)", i, typ, opts, raw[i], prior, ref[i], determinedPrior[key]),
-					fmt.Sprintf("objinit %s %d %s\nobjinit %s %d %s", typ, opts, prior, typ, opts, determinedPrior[key]))
+					fmt.Sprintf("objinit %s %d %s\nobjinit %s %d %s", typ, opts, prior, typ, opts, refPrior))
 				return
 			}
 		}
@@ -409,7 +440,9 @@ func (h *harness) probeSection(probes []*probePkg) {
 	def := pools["p_default"]
 	lay := parseLayout(def.ask("layout"))
 	for _, p := range probes {
-		h.objInitOps(def, lay, "wuffs_"+p.name+"__outer", []int{0, 1, 2, 3, 4, 6}, priorPatterns, "probe")
+		rc := &rec{}
+		h.objInitOps(rc, def, lay, "wuffs_"+p.name+"__outer", []int{0, 1, 2, 3, 4, 6}, priorPatterns, "probe")
+		rc.emit(r)
 		r.Nontrivial("probe:" + p.name)
 		// choose: every flavour
 		for _, f := range h.probeFl {
@@ -459,21 +492,34 @@ func (h *harness) stdObjSection(structs []cStruct) {
 		names = append(names, s.name)
 	}
 	sort.Strings(names)
-	for _, n := range names {
+	recs := make([]*rec, len(names))
+	var wg sync.WaitGroup
+	for k, n := range names {
 		li := lay[n]
+		recs[k] = &rec{}
 		if li == nil {
 			continue
 		}
-		switch {
-		case li.size > 1<<18 && !h.r.Thorough:
-			// big objects: constant priors only, two option sets
-			h.objInitOps(pl, lay, n, []int{0, 2}, []string{"c:ff", "c:a5"}, "std")
-		case li.size > 1<<14 && !h.r.Thorough:
-			h.objInitOps(pl, lay, n, []int{0, 1, 2}, []string{"z", "c:ff", "c:a5"}, "std")
-		default:
-			h.objInitOps(pl, lay, n, []int{0, 1, 2, 3}, []string{"z", "c:ff", "c:a5", "r:3", "q:5"}, "std")
+		wg.Add(1)
+		go func(rc *rec, n string, li *layoutInfo) {
+			defer wg.Done()
+			switch {
+			case li.size > 1<<16 && !h.r.Thorough:
+				// big objects: constant priors only, two option sets
+				h.objInitOps(rc, pl, lay, n, []int{0, 2}, []string{"c:ff", "c:a5"}, "std")
+			case li.size > 1<<14 && !h.r.Thorough:
+				h.objInitOps(rc, pl, lay, n, []int{0, 1, 2}, []string{"z", "c:ff", "c:a5"}, "std")
+			default:
+				h.objInitOps(rc, pl, lay, n, []int{0, 1, 2, 3}, []string{"z", "c:ff", "c:a5", "r:3", "q:5"}, "std")
+			}
+		}(recs[k], n, li)
+	}
+	wg.Wait()
+	for k, n := range names {
+		recs[k].emit(h.r)
+		if lay[n] != nil {
+			h.r.Nontrivial("stdobj:" + n)
 		}
-		h.r.Nontrivial("stdobj:" + n)
 	}
 }
 
